@@ -14,3 +14,5 @@ pub open spec fn gok_but(g: G, root: nat, z: bool) -> bool {
 }
 pub open spec fn zvals(es: Seq<(Seq<u8>, int)>) -> bool { forall|i: int| 0 <= i < es.len() ==> (#[trigger] es[i]).1 == 0 }
 pub open spec fn vals_fit(es: Seq<(Seq<u8>, int)>) -> bool { forall|i: int| 0 <= i < es.len() ==> 0 <= (#[trigger] es[i]).1 <= u64::MAX }
+/// no node has been written twice
+pub open spec fn nodup(g: G) -> bool { forall|a: nat, b: nat| g.dom().contains(a) && g.dom().contains(b) && a != b ==> #[trigger] g[a] != #[trigger] g[b] }
